@@ -40,13 +40,54 @@ func c15GeneratedNameTestedLast(p *Prog) *RuleResult {
 		c, ok := in.(*ssa.Call)
 		return ok && calleeFullName(c) == "("+modPath+"/internal/ast.NameMinifier).NumberToMinifiedName"
 	}
-	isStore := func(in ssa.Instruction) bool {
+	isSlotStore := func(in ssa.Instruction) bool {
 		st, ok := in.(*ssa.Store)
 		if !ok {
 			return false
 		}
 		fa, ok := st.Addr.(*ssa.FieldAddr)
 		return ok && fieldAddrName(fa) == "name" && namedTypeName(fa.X.Type()) == "renamer.symbolSlot"
+	}
+	// the selection of the name may stand in AssignNamesByFrequency itself or in a helper of the package
+	// whose result AssignNamesByFrequency stores into the slot; in the helper, handing the name back
+	// (return) is what the store is in the original form
+	viaReturn := false
+	{
+		has := false
+		eachInstr(fn, func(_ *ssa.BasicBlock, in ssa.Instruction) {
+			if isGen(in) {
+				has = true
+			}
+		})
+		if !has {
+			eachInstr(fn, func(_ *ssa.BasicBlock, in ssa.Instruction) {
+				st, ok := in.(*ssa.Store)
+				if !ok || !isSlotStore(in) || viaReturn {
+					return
+				}
+				c, ok := st.Val.(*ssa.Call)
+				if !ok || c.Call.StaticCallee() == nil || pkgPathOf(c.Call.StaticCallee()) != pkgPathOf(fn) {
+					return
+				}
+				callee := c.Call.StaticCallee()
+				gen := false
+				eachInstr(callee, func(_ *ssa.BasicBlock, in2 ssa.Instruction) {
+					if isGen(in2) {
+						gen = true
+					}
+				})
+				if gen {
+					fn, viaReturn = callee, true
+				}
+			})
+		}
+	}
+	isStore := func(in ssa.Instruction) bool {
+		if viaReturn {
+			_, isRet := in.(*ssa.Return)
+			return isRet
+		}
+		return isSlotStore(in)
 	}
 	isReservedLookup := func(in ssa.Instruction) bool {
 		l, ok := in.(*ssa.Lookup)
